@@ -369,6 +369,63 @@ def normalise_locals(func: ast.AST, ref: dict[str, list[str]]) -> tuple[dict[str
     return mapping, inlined
 
 
+def reextract_locals(func: ast.AST, ref: dict[str, list[str]]) -> list[str]:
+    """A local of the reference that was inlined away (``v = e; f(v)`` -> ``f(e)``) is introduced again.
+
+    Only for a reference local with one plain assignment whose expression (locals abstracted) occurs exactly once in
+    the function, inside a simple statement: ``v = e`` is inserted right before that statement and the occurrence is
+    replaced by ``v`` (the value is computed at the same place, so behaviour is unchanged).
+    """
+    import copy
+
+    done = []
+    for _ in range(6):
+        cur_defs = local_defs(func)
+        names = set(cur_defs) | set(ref)
+        missing = [m for m in ref if m not in cur_defs and len(ref[m]) == 1 and ref[m][0].startswith("assign:") and not ref[m][0].startswith("assign:_")]
+        if not missing:
+            break
+        progressed = False
+        for m in missing:
+            want = ref[m][0][len("assign:") :]
+            if len(want) < 8 or want in ("None", "True", "False", "[]", "{}", "0", "1", "()"):
+                continue
+            hits = []
+            for block in _blocks(func):
+                for k, st in enumerate(block):
+                    if not isinstance(st, (ast.Assign, ast.AugAssign, ast.Expr, ast.Return, ast.AnnAssign)):
+                        continue
+                    for n in ast.walk(st):
+                        if isinstance(n, ast.expr) and not isinstance(n, (ast.Name, ast.Constant)) and not isinstance(getattr(n, "ctx", None), (ast.Store, ast.Del)):
+                            if _shape("assign", n, names)[len("assign:") :] == want:
+                                hits.append((block, k, st, n))
+            # nested matches of the same text inside one another count once (outermost)
+            if len(hits) != 1:
+                continue
+            block, k, st, node = hits[0]
+            if isinstance(st, ast.Assign) and st.value is node and len(st.targets) == 1 and isinstance(st.targets[0], ast.Name):
+                continue  # it IS a plain assignment (to another name): a rename, handled elsewhere
+            if m in {x.id for x in ast.walk(func) if isinstance(x, ast.Name)}:
+                continue
+            new_assign = ast.copy_location(ast.Assign(targets=[ast.Name(id=m, ctx=ast.Store())], value=copy.deepcopy(node)), st)
+
+            class R(ast.NodeTransformer):
+                def visit(self, n):  # noqa: A003
+                    if n is node:
+                        return ast.copy_location(ast.Name(id=m, ctx=ast.Load()), n)
+                    return super().visit(n)
+
+            block[k] = R().visit(st)
+            block.insert(k, new_assign)
+            ast.fix_missing_locations(func)
+            done.append(m)
+            progressed = True
+            break
+        if not progressed:
+            break
+    return done
+
+
 
 def canonicalise_tests(tree: ast.AST) -> int:
     """``if not c: A else: B`` -> ``if c: B else: A`` (also for conditional expressions), so that guard-clause and
